@@ -13,6 +13,7 @@ O2  last hop / router: update() on a node with a symbolic frame from F to D in i
     65..191, this hop delivers to the final destination, the delivery was acknowledged and
     the frame is not the node's own; never otherwise (non-last hop, failed delivery, other
     types, NETWORK_ACK frames themselves).
+O4  multicasts: neither receiving / relaying one of any type nor sending one causes a NETWORK_ACK, and multicast() does not wait.
 """
 from checks.netcommon import *  # noqa
 
@@ -143,6 +144,35 @@ def o2_last_hop(ctx, role, lvl, lf, ld):
     ctx.reached()
 
 
+def o4_multicast_never_acked(ctx, role, lvl, relay, side):
+    """multicasts never cause a NETWORK_ACK: neither at a node that receives (and perhaps relays) one of an ack type, nor at
+    the node that sends it (which does not wait for one either)"""
+    clock = fresh_env(ctx)
+    radio, node, addr = build_node(ctx, clock, role, lvl)
+    link, _ = per_packet_link(ctx, radio, always=False)
+    node.multicast_relay = relay
+    mtype = user_or_system_type(ctx)
+    sent0 = len(radio.sent)
+    if side == "receiver":
+        f = sym_addr(ctx, "F", ctx.choice("origin_level", 5))
+        ctx.assume(f != addr)
+        fid, res = ctx.int("id", 0, 0xFFFF), ctx.int("reserved", 0, 255)
+        body = ctx.bytes("body", 2)
+        radio.inject_rx(0, [f & 0xFF, f >> 8, 0o100, 0, fid & 0xFF, fid >> 8, mtype, res] + blist(body))
+        node.update()
+    else:
+        t0 = clock.now
+        ok = node.multicast(ctx.bytes("body", 2), mtype, ctx.int("level", 0, 4))
+        ctx.check(ok == True, "multicast() returns True")  # noqa: E712
+        ctx.check(clock.now - t0 < node.route_timeout * 1_000_000, "multicast() does not wait for a NETWORK_ACK")
+    pk = distinct_packets(radio, sent0)
+    ctx.check(len(pk) <= 1, "at most one frame is transmitted (the multicast itself or its re-broadcast)")
+    for e in pk:
+        ctx.check(e["data"][6] != NETWORK_ACK, "a multicast never causes a NETWORK_ACK")
+        ctx.check((e["data"][2] | (e["data"][3] << 8)) == 0o100, "whatever is transmitted is the multicast itself")
+    ctx.reached()
+
+
 CHAIN = [0, 0o4, 0o24, 0o324, 0o1324, 0o5324, 0o124, 0o14, 0o1, 0o11]
 ROUTES = [(0o1324, 0o14), (0o14, 0o5324), (0o124, 0o11), (0o1, 0o1324), (0o324, 0o4), (0o24, 0o1324), (0o1324, 0)]
 
@@ -240,6 +270,12 @@ def jobs(tier):
     else:
         rc = [(r, l, lf, ld) for r in roles for l in range(5) for lf in range(5) for ld in range(5)
               if not (r == "mesh" and l == 0) and (lf, ld) != (0, 0) and (l, ld) != (0, 0) and (l + lf + ld) % 2 == 0]
+    for r, l in ((("net", 1), ("net", 4), ("routing", 2), ("mesh", 3), ("master", 0)) if tier == "quick" else
+                 [(r, l) for r in ("net", "routing", "mesh") for l in range(0 if r != "mesh" else 1, 5)] + [("master", 0)]):
+        for relay in (False, True):
+            out.append(Job("O4-multicasts-never-cause-a-NETWORK_ACK", o4_multicast_never_acked, dict(role=r, lvl=l, relay=relay, side="receiver"), cost=10))
+        if r != "routing":
+            out.append(Job("O4-multicasts-never-cause-a-NETWORK_ACK", o4_multicast_never_acked, dict(role=r, lvl=l, relay=False, side="sender"), cost=10))
     for r, l, lf, ld in rc:
         out.append(Job("O2-last-hop-acks-once", o2_last_hop, dict(role=r, lvl=l, lf=lf, ld=ld), cost=20, shards=2))
     return out
